@@ -212,7 +212,7 @@ def layoutObjectNodes : List String :=
   ["bucket-a/obj", "bucket-a/dir", "bucket-a/dir/inner", "bucket-a/empty",
    "bucket-b/obj", "bucket-b/secret", "bucket-b/dir", "bucket-b/dir/inner"]
 
-/-- `delete_object` of a key at whose path nothing exists succeeds without touching anything (fe75a0e) -/
+/-- `delete_object` of a key at whose path nothing exists succeeds without touching anything (20fee59) -/
 def deleteOfNothing (root : Bytes) (o : Op) (p : Bytes) : Bool :=
   match o with
   | .deleteObject .. => !(layoutObjectNodes.any fun r => components (root ++ 47 :: sb r) == components p)
